@@ -6,6 +6,7 @@ import (
 	"fmt"
 	"sort"
 	"strings"
+	"time"
 
 	"github.com/esimov/gogu/bstree"
 	"github.com/esimov/gogu/cache"
@@ -13,6 +14,7 @@ import (
 	"github.com/esimov/gogu/queue"
 	"github.com/esimov/gogu/stack"
 	"github.com/esimov/gogu/trie"
+	"github.com/esimov/gogu/vrtshim/vrt"
 )
 
 // A conType describes one "concurrent safe" container for the schedule-exploring checks.
@@ -498,6 +500,19 @@ func conTypes() []*conType {
 				for _, k := range c {
 					ca.Set(k, "i", cache.NoExpiration)
 				}
+				return ca
+			}})
+		}
+		// non-initial starts in time: x (and y) stored with a 3 ms lifetime and the virtual clock moved
+		// past it -- expired but not purged (the clock stays frozen during the calls themselves)
+		for _, c := range [][]string{{"x"}, {"x", "y"}} {
+			c := c
+			t.inits = append(t.inits, initSpec{fmt.Sprint(c) + "-expired-unpurged", func() any {
+				ca := cache.New[string, string](cache.NoExpiration, 0)
+				for _, k := range c {
+					ca.Set(k, "i", 3*time.Millisecond)
+				}
+				vrt.Advance(4 * time.Millisecond)
 				return ca
 			}})
 		}
